@@ -4,6 +4,10 @@ import AxVerif.Lemmas.Sql
 namespace AxVerif.Index
 open AxVerif.Sql
 
+instance (ix : Index) : Decidable (KeysDistinct ix) := by unfold KeysDistinct; exact inferInstance
+instance (ix : Index) (rows : Rows) : Decidable (IndexConsistent ix rows) := by unfold IndexConsistent; exact inferInstance
+instance (rows : Rows) : Decidable (RidsDistinct rows) := by unfold RidsDistinct; exact inferInstance
+
 /-! ### entry level -/
 
 theorem insertEntry_keys (e : Entry) (es : List Entry) :
